@@ -330,7 +330,7 @@ def fixed_cases():
 
 
 def gen(rng, tier):
-    scale = 1 if tier == "quick" else 25
+    scale = 1 if tier == "quick" else 12
     cases = fixed_cases()
     for _ in range(200 * scale):
         cases.append(gen_one(rng, "acl", tier))
@@ -393,6 +393,29 @@ def nontrivial(c, o):
 
 
 def fingerprint(c, o):
+    """stable failure classes (one VIOLATION line per class); the repaired start-port-0 defect keeps its old name"""
+    import re
+    why = o.get("why") or ""
+    if "panic" in why:
+        return "acl-panic"
+    if "caching is visible" in why or "earlier in the history" in why:
+        return "acl-cache-visible"
+    if "rejected" in why:
+        return "acl-documented-rule-rejected"
+    if "assumption" in why:
+        return "acl-ip-string-assumption"
+    if "ParseTextRules" in why:
+        return "acl-line-parser"
+    if "rewritten inconsistently" in why:
+        return "acl-engine-rewrite"
+    m = re.search(r"port (\d+)\)", why)
+    if m and "documentation gives" in why:
+        port = int(m.group(1))
+        for r in c["rules"]:
+            mm = re.search(r"/\s*0+-(\d+)\s*$", r["pp"])
+            if mm and port > int(mm.group(1)):
+                return "acl-port-start-0-matches-any"
+        return "acl-engine-not-first-match" if c["k"] == "eng" else "acl-not-first-match"
     return None
 
 
